@@ -8,7 +8,7 @@
 (* increments `mism`; the driver turns MISMATCH lines into verdicts.       *)
 (* Traces of many worlds are concatenated ("World" events reset the state).*)
 (***************************************************************************)
-EXTENDS Obs, Laws, Json, IOUtils
+EXTENDS Obs, Laws, DiffRef, Json, IOUtils
 
 TraceFile == IF "TRACE" \in DOMAIN IOEnv THEN IOEnv.TRACE ELSE "trace.ndjson"
 Trace == ndJsonDeserialize(TraceFile)
@@ -67,7 +67,15 @@ TraceEval == /\ IsEvent("Eval")
              /\ LET lc(p, q) == ObsConn(w, obsL, p, q)
                 IN Report(EvalMismatches(w, Trace[l].obs, obsL.outcome = "ok", lc))
 
-Next == TraceWorld \/ TraceList \/ TraceEval
+(* C04: diff(prev, cur), diff(cur, prev) and diff(cur, cur); only between worlds whose keys are unambiguous *)
+TraceDiff == /\ IsEvent("Diff")
+             /\ UNCHANGED <<w, wid, edit, prevW, prevL, obsL>>
+             /\ LET ev == Trace[l]
+                    a == IF ev.dir = "fwd" THEN prevW ELSE w
+                    b == IF ev.dir = "rev" THEN prevW ELSE w
+                IN Report(IF DistinctKeys(a) /\ DistinctKeys(b) THEN DiffMismatches(a, b, ev.obs) ELSE {})
+
+Next == TraceWorld \/ TraceList \/ TraceEval \/ TraceDiff
 
 Spec == Init /\ [][Next]_vars
 
